@@ -75,12 +75,19 @@ def one(ctx: Ctx, spec, dtype, dependent=False):
     # (0) rank-deficient matrices: the implementation against the exact any-rank model of the pseudo-inverse based
     #     aggregators (`imtlgWeightsP` / `configVecP`, TjdProps/C17b.lean); row norms are square roots: the model gets
     #     their double-precision values as exact rationals (the answer is Lipschitz in them)
-    if dependent and spec.name in ("IMTLG", "ConFIG") and dtype == torch.float64:
+    if dependent and spec.name in ("IMTLG", "ConFIG"):
         from agg_common import ask_agg, fr_list, tensor_to_fr, maxdiff, maxabs
         dn = [Fr(float(v)) for v in Jt.double().norm(dim=1).tolist()]
         if spec.name == "IMTLG":
             rep = ask_agg(ctx.driver, "imtlgp", J, d=dn, guard=Fr(1, 10 ** 12))
             xm = None if rep is None else fr_list(rep[2])
+            if rep is not None:
+                wm = fr_list(rep[1])
+                if all(v == 0 for v in wm) or sum(abs(v) for v in wm) > 50:
+                    # the un-normalised weights sum to (nearly) zero: the definition v / sum(v) is discontinuous there
+                    # (decision margin of the guard, §4.2) — e.g. rows that add up to zero
+                    ctx.count("skipped_low_margin", "IMTLG: weights sum near zero")
+                    return
         else:
             wv = [Fr(v) for v in pv] if pv is not None else [Fr(1)] * m
             rep = ask_agg(ctx.driver, "configp", J, d=dn, w=wv)
@@ -92,7 +99,8 @@ def one(ctx: Ctx, spec, dtype, dependent=False):
         pos = [v for v in sv if v > 1e-9 * sv[0]]
         kappa = (pos[0] / pos[-1]) ** 2
         xs = tensor_to_fr(x)
-        tolm = Fr(64 * 2.2e-16 * kappa * m * n) * max(maxabs(xm), maxabs(xs), Fr(1, 10 ** 30))
+        # natural magnitude: the rows themselves (the exact result may vanish by cancellation)
+        tolm = Fr(64 * ulp(dtype) * kappa * m * n) * max(maxabs(xm), maxabs([v for r in J for v in r]), Fr(1, 10 ** 30))
         ctx.count("compared_with_any_rank_model", spec.name)
         if maxdiff(xs, xm) > tolm:
             ctx.violation(f"{spec.name} on a rank-{len(pos)} matrix with {m} rows returns {[float(v) for v in xs]}; the exact "
@@ -114,7 +122,14 @@ def one(ctx: Ctx, spec, dtype, dependent=False):
             return
     # (2) orthogonal change of coordinates (Gramian-based weightings)
     if spec.gramian:
-        Q = cayley(rng, n)
+        if dependent:
+            # exactly representable orthogonal map (signed permutation): J Q stays an integer matrix, so its rank stays
+            # unambiguous (a rounded J Q has a Gramian whose noise eigenvalue sits at the pseudo-inverse's own cut-off)
+            perm_ = list(range(n))
+            rng.shuffle(perm_)
+            Q = [[Fr(rng.choice([-1, 1])) if c == perm_[r] else Fr(0) for c in range(n)] for r in range(n)]
+        else:
+            Q = cayley(rng, n)
         JQ = matmul(J, Q)
         st2, y = attempt(A, to_tensor(JQ, dtype), seed)
         xQ = x.double() @ to_tensor(Q, torch.float64)
